@@ -139,6 +139,7 @@ def register(E):
         returns=TFunc,
         prop=['C01', 'C03', 'C04']))
 
+    register_checks(E)
     CH_FUNCS = E.ghost['CH_FUNCS']
 
     @E.spec('PR_EP_FUNCS')
@@ -171,3 +172,95 @@ def register(E):
         want = E.eval_spec(ctx, sfr, 'set(req_unres) == Req(list(req_funcs) + [req_func], list(req_provides) + [()], '
                                      '"next", len(req_funcs) + 1) - req_avail')
         return VBool(z3.And(unres != Z.empty_set(Z.Str), want))
+
+
+def _b2i(b):
+    return z3.If(b, z3.IntVal(1), z3.IntVal(0))
+
+
+_HP = Z.const('H0:MW.provides', z3.ArraySort(Z.Obj, NamesSort))
+_HEP = Z.const('H0:MW.endpoint_provides', z3.ArraySort(Z.Obj, NamesSort))
+_HRP = Z.const('H0:MW.render_provides', z3.ArraySort(Z.Obj, NamesSort))
+_HREQ = Z.const('H0:MW.request', z3.ArraySort(Z.Obj, Z.Obj))
+_HEPF = Z.const('H0:MW.endpoint', z3.ArraySort(Z.Obj, Z.Obj))
+_HRNF = Z.const('H0:MW.render', z3.ArraySort(Z.Obj, Z.Obj))
+_n = z3.Const('cnt!n', Z.Str)
+_ms = z3.Const('cnt!ms', Z.SeqSort(Z.Obj))
+_ci = z3.Int('cnt!i')
+CNTM = z3.RecFunction('CNTM', Z.Str, Z.SeqSort(Z.Obj), Z.Int, Z.Int)
+_m = _ms[_ci - 1]
+z3.RecAddDefinition(CNTM, [_n, _ms, _ci],
+                    z3.If(_ci <= 0, z3.IntVal(0),
+                          CNTM(_n, _ms, _ci - 1)
+                          + _b2i(z3.IsMember(_n, nset(z3.Select(_HP, _m))))
+                          + _b2i(z3.IsMember(_n, nset(z3.Select(_HEP, _m))))
+                          + _b2i(z3.IsMember(_n, nset(z3.Select(_HRP, _m))))))
+
+
+def badmw_z(m):
+    def bad(f):
+        return z3.And(f != Z.NONE, z3.Or(ARGN(f) == Z.empty_set(Z.Str), nfirst(ARGNSEQ(f)) != z3.StringVal('next')))
+    return z3.Or(bad(z3.Select(_HREQ, m)), bad(z3.Select(_HEPF, m)), bad(z3.Select(_HRNF, m)))
+
+
+def register_checks(E):
+    @E.spec('BADMW')
+    def BADMW(I, ctx, mw):
+        return VBool(badmw_z(mw.z))
+
+    @E.spec('CNTM')
+    def CNTM_(I, ctx, n, mws, i):
+        q = I._as_seq(ctx, I.resolve(ctx, mws), TMW)
+        return VInt(CNTM(n.z, q[0], TInt.to_z(i)))
+
+    @E.spec('CNT3')
+    def CNT3(I, ctx, n, args_dict):
+        d = I.resolve(ctx, args_dict)
+        if isinstance(d, VNone):
+            return VInt(0)
+        h = ctx.heap[d.rid]
+        tot = z3.IntVal(0)
+        for k, v in h.conc.items():
+            sz = M.iterable_as_set(I, ctx, v)[0]
+            tot = tot + _b2i(z3.IsMember(n.z, sz))
+        return VInt(tot)
+
+    E.add_contract(Contract(
+        'clastic.middleware.core.check_middleware',
+        params={'mw': TMW},
+        ensures=['not BADMW(mw)'],
+        raises={'builtins.TypeError': None, 'builtins.IndexError': None},
+        raises_only_if={'builtins.TypeError': 'BADMW(mw)', 'builtins.IndexError': 'BADMW(mw)'},
+        prop=['C04']))
+
+    def three_sets(E_, ctx, name):
+        conc = {}
+        for k in ('url', 'builtins', 'resources'):
+            conc[k] = ctx.alloc(HSet(Z.fresh('src_' + k, Z.SetSort(Z.Str)), TStr))
+        return ctx.alloc(HDict(conc=conc))
+
+    SLOT_INV = ['forall_str(lambda n: len(provided_by[n]) == len(at_entry(provided_by)[n]) + (1 if n in _done else 0))',
+                'forall_str(lambda n: implies(len(provided_by[n]) > 0, n in provided_by))']
+    TOTAL = 'CNT3(n, args_dict) + CNTM(n, middlewares, %s)'
+    inner = LoopSpec(inv=SLOT_INV, modifies=['provided_by'])
+    E.add_contract(Contract(
+        'clastic.middleware.core.check_middlewares',
+        params={'middlewares': TSeq(TMW)},
+        cases=[('no sources', {'args_dict': TConst(NONE)}), ('url/builtins/resources', {'args_dict': three_sets})],
+        loops={('arg_name', 'arg_list'): inner,
+               ('arg', 'mw.provides'): inner, ('arg', 'mw.endpoint_provides'): inner,
+               ('arg', 'mw.render_provides'): inner,
+               ('mw', 'middlewares'): LoopSpec(
+                   inv=['forall_str(lambda n: len(provided_by[n]) == %s)' % (TOTAL % '_i'),
+                        'forall_str(lambda n: implies(len(provided_by[n]) > 0, n in provided_by))',
+                        'forall_int(0, _i, lambda j: not BADMW(middlewares[j]))'],
+                   modifies=['provided_by'])},
+        ensures=['forall_str(lambda n: %s <= 1)' % (TOTAL % 'len(middlewares)'),
+                 'forall_int(0, len(middlewares), lambda j: not BADMW(middlewares[j]))',
+                 'result == True'],
+        raises={'builtins.NameError': None, 'builtins.TypeError': None, 'builtins.IndexError': None},
+        raises_only_if={'builtins.NameError': 'exists_str(lambda n: %s > 1)' % (TOTAL % 'len(middlewares)'),
+                        'builtins.TypeError': 'not forall_int(0, len(middlewares), lambda j: not BADMW(middlewares[j]))',
+                        'builtins.IndexError': 'not forall_int(0, len(middlewares), lambda j: not BADMW(middlewares[j]))'},
+        returns=TBool,
+        prop=['C04']))
